@@ -79,7 +79,7 @@ class Ctx:
         cov = {
             "obligations": self.obligations,
             "discharged": self.discharged,
-            "checker_cmd": f"cd /verif/lean && lake build {reg['module']} && lake env lean ../work/Audit_{self.prop}.lean   (# print axioms on {len(reg['theorems'])} theorems)",
+            "checker_cmd": f"cd /verif/lean && lake build {' '.join(reg['module']) if isinstance(reg['module'], list) else reg['module']} && lake env lean ../work/Audit_{self.prop}.lean   (# print axioms on {len(reg['theorems'])} theorems)",
             "trusted_base": TRUSTED_BASE,
             "theorems": reg["theorems"],
             "axioms_used": self.axioms,
@@ -1223,7 +1223,7 @@ def shortcut_pattern(ctx, f=""):
         x = r.choice(["a", "b", "[ab]", "\\w", ".", "\\n", "\\s", "\\d", "x", "z", "é", "[x-z]"])
         q = r.choice(["*", "+", "?", "{2}", "{1,3}", "*?", "+?", "{0,2}?"])
         y = r.choice(["a", "b", "[ab]", "c", "\\n", "$", "^", "\\w", "(?:a|b)", "b*", "(b)", "1", ".", "[^0-9]", "\\S", "x", "[^a]", "A", "B", "Ab", "[A-B]", "$\\nb", "^a"])
-        if r.random() < 0.15:
+        if r.random() < 0.3:
             # a nullable term between the repeat and something that starts like the repeated term
             y = r.choice(["(?:b|)X", "(?:(?:bc|d)*|c)X", "(?:c?|d)X", "(b*|c)X", "(?:b|c*)X", "(?:^|c)X", "(?:c|$)X", "(c)?X", "(?:c{0,2}|d)X"]).replace("X", x)
         if "i" in f and x.isalpha() and r.random() < 0.4:
@@ -1236,6 +1236,8 @@ def shortcut_pattern(ctx, f=""):
         p = r.choice(["", "x"]) + x + q + y + tail
     elif k < 0.8:
         p = p + a() * r.randint(3, 6)                         # long minimum length
+    if k >= 0.45 and k < 0.7 and len(x) == 1:
+        alpha = alpha + x * 3          # inputs rich in the repeated character
     return p, alpha, fe
 
 
